@@ -52,7 +52,7 @@ Theorem members_sorted c ind ls : write_class c ind = Ok ls ->
                       (option_map (short_name (negb (Nat.eqb ind 0))) (cls_dst c))
               :: comment_lines (S ind) (c_doc c) ++ flat_map (write_field (S ind)) fs ++ concat mls.
 Proof.
-  unfold write_class. intros H.
+  intros H. apply write_class_ok in H as [H _]. unfold write_class_lines in H.
   destruct (map_res (write_meth (S ind)) (isort meth_wleb (c_methods c))) as [mls|] eqn:E; [|discriminate].
   cbn [bind] in H. injection H as <-.
   exists (isort field_wleb (c_fields c)), (isort meth_wleb (c_methods c)), mls.
